@@ -84,6 +84,71 @@ def _verify_one(task):
         }
 
 
+def _sample_one(task):
+    """Bounded stand-in / CPython cross-check for one contract: solver-aided inputs, native evaluation."""
+    import json
+    import subprocess
+    import tempfile
+
+    mod, cname, n, seed = task
+    from .engine import Ctx, Result
+    from .world import World
+
+    try:
+        sidecars = load_sidecars()
+        reg = registry_by_target(sidecars)
+        c = next(x for x in sidecars[mod] if x.name == cname)
+        world = World()
+        sc = world.add_sidecar(f"sidecar.{mod}", c.sidecar)
+        res = Result(c)
+        ctx = Ctx(world, c, sc, reg, res, {})
+        from . import plugins as _pl
+
+        _pl.attach(ctx)
+        inputs = ctx.gen_inputs(n, seed)
+        if not inputs:
+            return {"contract": cname, "sidecar": mod, "generated": 0, "satisfying_requires": 0, "distinct": 0,
+                    "failures": [], "errors": ["no inputs satisfying requires could be generated"]}
+        jd = os.path.join(VERIF, "replay", "_jobs")
+        os.makedirs(jd, exist_ok=True)
+        fd, path = tempfile.mkstemp(suffix=".json", dir=jd)
+        with os.fdopen(fd, "w") as fh:
+            json.dump({"sidecar": mod, "contract": cname, "inputs": inputs,
+                       "bound": f"{len(inputs)} solver-generated inputs, seed {seed}"}, fh, default=str)
+        env = dict(os.environ)
+        repo = os.environ.get("PYVC_REPO", "/repo")
+        env["PYTHONPATH"] = VERIF + os.pathsep + repo
+        try:
+            p = subprocess.run(["/venv/bin/python", "-m", "pyvc.native", "--run-many", path], capture_output=True,
+                               text=True, cwd=VERIF, env=env, timeout=1200)
+        finally:
+            os.unlink(path)
+        line = p.stdout.strip().split("\n")[-1] if p.stdout.strip() else ""
+        try:
+            out = json.loads(line)
+        except Exception:
+            out = {"failures": [], "generated": 0, "satisfying_requires": 0, "distinct": 0,
+                   "errors": [f"native sampler produced no JSON: {p.stderr[-800:]}"]}
+        out["contract"] = cname
+        out["sidecar"] = mod
+        return out
+    except Exception as ex:
+        return {"contract": cname, "sidecar": mod, "generated": 0, "satisfying_requires": 0, "distinct": 0,
+                "failures": [], "errors": [f"sampler crash: {type(ex).__name__}: {ex}", traceback.format_exc()[-1500:]]}
+
+
+def sample(selection, n, seed, jobs=None):
+    jobs = jobs or min(16, os.cpu_count() or 4)
+    tasks = [(m, c, n, seed) for m, c in selection]
+    if not tasks:
+        return []
+    if jobs == 1 or len(tasks) == 1:
+        return [_sample_one(t) for t in tasks]
+    ctxm = mp.get_context("fork")
+    with ctxm.Pool(min(jobs, len(tasks))) as pool:
+        return pool.map(_sample_one, tasks, chunksize=1)
+
+
 def verify(selection, jobs=None, opts=None):
     """selection: list of (sidecar module name, contract name)."""
     jobs = jobs or min(16, os.cpu_count() or 4)
@@ -104,10 +169,19 @@ def main(argv=None):
     ap.add_argument("contract", nargs="?")
     ap.add_argument("-j", type=int, default=None)
     ap.add_argument("-v", action="store_true")
+    ap.add_argument("--sample", type=int, default=0)
     a = ap.parse_args(argv)
     sc = load_sidecars([a.sidecar])
     sel = [(a.sidecar, c.name) for c in sc[a.sidecar] if a.contract in (None, c.name)]
     t0 = time.time()
+    if a.sample:
+        for r in sample(sel, a.sample, 0, a.j):
+            print(f"{r['contract']:40s} generated={r['generated']} ok_pre={r['satisfying_requires']} "
+                  f"distinct={r['distinct']} failures={len(r['failures'])} errors={r['errors'][:2]}")
+            for f in r["failures"][:1]:
+                print("    ", json.dumps(f, default=str)[:700])
+        print(f"total {time.time()-t0:.1f}s")
+        return
     rs = verify(sel, a.j)
     for r in rs:
         print(f"{r['status']:11s} {r['contract']:40s} paths={r['paths']} wall={r['wall_s']}s "
